@@ -181,6 +181,16 @@ _ADD5 = {
  "C19": "Sources with other origins and emit-time failures in the sequences; a text that warns and then fails followed by a clean one in the watch session.",
  "C20": "Typed lines with several `;`; a pseudo terminal with a 40-column window and a line longer than it.",
 }
+# additions of the seventh round
+_ADD7 = {
+ "C03": "Catalogue program `putswrap`: PUTS and PUTSP over a string that starts at xFFFF and goes on at x0000.",
+ "C12": "Scenario programs `stlow` / `sthigh`: a store below the origin / into xFE06, registers and PC put back by hand, then reset: all 65,536 words must be the load state.",
+ "C14": "Transport scripts hold one character from every class of UTF-8 lead byte (C2, D0, DF, E0, ED, EF, F0, F1, F4).",
+ "C16": "Real terminal in ten history-file environments (regular, named pipe, directory, dangling link, link to a pipe, non-UTF-8 bytes, no final newline, read-only, cache directory a file / missing): the first prompt must appear and `step`, `quit` must end the session.",
+ "C20": "Pseudo-terminal sessions also in the keyboard-enhancement encodings (CSI press / auto-repeat / release events); Trace_Editor!TBlindWire states that press and repeat are key presses and a release is nothing.",
+}
+for _k, _v in _ADD7.items():
+    _ADD[_k] = (_ADD.get(_k, "") + " " + _v).strip()
 for _k, _v in _ADD5.items():
     _ADD[_k] = (_ADD.get(_k, "") + " " + _v).strip()
 for _k, _v in _ADD4.items():
